@@ -6,7 +6,7 @@
 
 use crate::c16::parse_trailer_block;
 use crate::indep;
-use crate::seams::{cut_bytes, Ev, SimBody};
+use crate::seams::{cut_bytes, Ev, Segmented, SimBody};
 use bytes::Bytes;
 use http::{HeaderMap, Version};
 use http_body::Body;
@@ -17,42 +17,6 @@ use std::future::Future;
 use std::pin::Pin;
 use std::sync::{Arc, Mutex};
 use std::task::{Context, Poll, Waker};
-
-/// Response body whose data frames are *segmented* buffers (`Chain<Bytes, Bytes>`): a `Buf` is
-/// not necessarily one contiguous slice.
-pub struct SegBody {
-    inner: SimBody,
-    sim: Sim,
-}
-
-impl Body for SegBody {
-    type Data = bytes::buf::Chain<Bytes, Bytes>;
-    type Error = crate::seams::BoxError;
-    fn poll_frame(mut self: Pin<&mut Self>, cx: &mut Context<'_>) -> Poll<Option<Result<http_body::Frame<Self::Data>, Self::Error>>> {
-        use bytes::Buf;
-        let this = &mut *self;
-        match Pin::new(&mut this.inner).poll_frame(cx) {
-            Poll::Pending => Poll::Pending,
-            Poll::Ready(None) => Poll::Ready(None),
-            Poll::Ready(Some(Err(e))) => Poll::Ready(Some(Err(e))),
-            Poll::Ready(Some(Ok(f))) => {
-                let sim = this.sim.clone();
-                Poll::Ready(Some(Ok(f.map_data(|mut d: Bytes| {
-                    let at = match sim.weighted(&[3, 2, 1]) {
-                        0 => d.len(),
-                        1 => sim.range(0, d.len() as u64) as usize,
-                        _ => 0,
-                    };
-                    if at > 0 && at < d.len() {
-                        sim.probe("segmented-data-buffer");
-                    }
-                    let a = d.split_to(at);
-                    a.chain(d)
-                }))))
-            }
-        }
-    }
-}
 
 #[derive(Clone, Default, Debug)]
 pub struct WebSeen {
@@ -74,7 +38,7 @@ where
     B: Body<Data = Bytes> + Send + 'static,
     B::Error: std::fmt::Display,
 {
-    type Response = http::Response<SegBody>;
+    type Response = http::Response<Segmented>;
     type Error = std::convert::Infallible;
     type Future = Pin<Box<dyn Future<Output = Result<Self::Response, Self::Error>> + Send>>;
     fn poll_ready(&mut self, _cx: &mut Context<'_>) -> Poll<Result<(), Self::Error>> {
@@ -99,7 +63,7 @@ where
                     break;
                 }
             }
-            let mut resp = http::Response::new(SegBody { inner: SimBody::new(&this.sim, "web-resp", this.body.clone(), this.pending, false), sim: this.sim.clone() });
+            let mut resp = http::Response::new(Segmented::new(SimBody::new(&this.sim, "web-resp", this.body.clone(), this.pending, this.sim.chance(1, 2))));
             resp.headers_mut().insert("content-type", "application/grpc-web+proto".parse().unwrap());
             Ok(resp)
         })
@@ -144,9 +108,23 @@ pub fn run(sim: &Sim, _idx: u64) {
     }
     let trailers = gen_trailers(sim);
     let space_after_colon = sim.chance(1, 2);
+    // an HTTP/1 header block: field names are case-insensitive; some servers capitalise them
+    let name_case = sim.weighted(&[3, 1, 1]);
+    if name_case > 0 {
+        sim.probe("trailer-names-not-lower-case");
+    }
     let mut block = vec![];
     for (k, v) in &trailers {
-        block.extend_from_slice(k.as_bytes());
+        let wire_name: String = match name_case {
+            0 => k.clone(),
+            1 => k.to_ascii_uppercase(),
+            _ => {
+                // Capitalised-Words
+                let mut up = true;
+                k.chars().map(|c| { let o = if up { c.to_ascii_uppercase() } else { c }; up = c == '-'; o }).collect()
+            }
+        };
+        block.extend_from_slice(wire_name.as_bytes());
         block.push(b':');
         if space_after_colon {
             block.push(b' ');
@@ -219,8 +197,8 @@ pub fn run(sim: &Sim, _idx: u64) {
     let seen = peer.seen.clone();
     let mut svc = tonic_web::GrpcWebClientService::new(peer);
     sim.nontrivial();
-    sim.sample(|| format!("msgs={nmsg} ({}B) trailers={:?} space_after_colon={space_after_colon} fault={defect:?} body={}B", msg_bytes.len(), trailers.iter().map(|(k, v)| format!("{k}:{}", String::from_utf8_lossy(v))).collect::<Vec<_>>(), body.len()));
-    sim.ev(|| format!("config: msgs={nmsg} ({}B) trailers={:?} space_after_colon={space_after_colon} fault={defect:?} body={}B", msg_bytes.len(), trailers.iter().map(|(k, v)| format!("{k}:{}", String::from_utf8_lossy(v))).collect::<Vec<_>>(), body.len()));
+    sim.sample(|| format!("msgs={nmsg} ({}B) trailers={:?} space_after_colon={space_after_colon} name_case={name_case} fault={defect:?} body={}B", msg_bytes.len(), trailers.iter().map(|(k, v)| format!("{k}:{}", String::from_utf8_lossy(v))).collect::<Vec<_>>(), body.len()));
+    sim.ev(|| format!("config: msgs={nmsg} ({}B) trailers={:?} space_after_colon={space_after_colon} name_case={name_case} fault={defect:?} body={}B", msg_bytes.len(), trailers.iter().map(|(k, v)| format!("{k}:{}", String::from_utf8_lossy(v))).collect::<Vec<_>>(), body.len()));
 
     // ---- the request tonic's client hands to the layer ----
     let req_grpc = indep::frame(0, b"request");
